@@ -1,15 +1,15 @@
 INIT Init
 NEXT Next
 CONSTANTS
-  Ids <- IdsABig
-  Names <- NamesABig
+  Ids <- IdsA
+  Names <- NamesA
   Chars <- MCChars
   Replicas = {"n"}
   Up <- MCUp
   IsCompact <- MCIsCompact
   MaxBatch = 3
-  ChunkSizes = {1, 2}
-  MaxVer = 6
+  ChunkSizes = {1}
+  MaxVer = 5
   MaxRestarts = 1
   MaxOps = 0
   OrigNames = FALSE
